@@ -163,14 +163,33 @@ def run(call: GeneratorCall) -> Module:
     # Add to the call stack.
     # This is helpful even if (especially if) we find it's a circular dependency next.
     the_cache.stack.append(call)
+    try:
+        if call.gen.enable_cache:
+            # Check for circular dependencies.
+            # Note this uses a hash-set of `GeneratorCall`s, so only hashable ones get checked.
+            if call in the_cache.pending:
+                msg = f"Invalid self referencing/ circular dependency in `{call}`"
+                raise RuntimeError(msg)
+            the_cache.pending.add(call)
+        try:
+            m = _run(call)
+        finally:
+            # Whether the generator succeeded or failed, `call` is no longer pending
+            if call.gen.enable_cache:
+                the_cache.pending.discard(call)
+    finally:
+        the_cache.stack.pop()
 
+    # Store the result in our cache
     if call.gen.enable_cache:
-        # Check for circular dependencies.
-        # Note this uses a hash-set of `GeneratorCall`s, so only hashable ones get checked.
-        if call in the_cache.pending:
-            msg = f"Invalid self referencing/ circular dependency in `{call}`"
-            raise RuntimeError(msg)
-        the_cache.pending.add(call)
+        the_cache.done[call] = m
+
+    # And return the generated Module
+    return m
+
+
+def _run(call: GeneratorCall) -> Module:
+    """Inner implementation of `run`: execute the generator function, and name its result."""
 
     # Check that the call has a valid instance of the generator's parameter-class
     if not isinstance(call.params, call.gen.Params):
@@ -196,13 +215,6 @@ def run(call: GeneratorCall) -> Module:
     if hasparams(call.gen.Params):
         m.name += "(" + _unique_name(call.params) + ")"
 
-    # Store the result in our cache, and on the Call.
-    the_cache.stack.pop()
-    if call.gen.enable_cache:
-        the_cache.pending.remove(call)
-        the_cache.done[call] = m
-
-    # And return the generated Module
     return m
 
 
